@@ -110,14 +110,22 @@ class Check(Prop):
         progs = self.progs
         rand_lower = st.from_regex(r"[a-z_][a-z0-9_]{0,13}", fullmatch=True)
         rand_upper = st.from_regex(r"[A-Z][A-Za-z0-9_]{0,13}", fullmatch=True)
-        lower = st.one_of(rand_lower, st.sampled_from(EDGE_LOWER), st.sampled_from(HOSTILE_LOWER), st.sampled_from(list("abeinqtxz_")))
+        # names on the edge of the lexical class: leading underscores are still locals
+        under = st.sampled_from(["_", "_x", "_first", "_9", "__", "_a1", "_Q", "x_", "_s"])
+        lower = st.one_of(rand_lower, st.sampled_from(EDGE_LOWER), st.sampled_from(HOSTILE_LOWER), st.sampled_from(list("abeinqtxz_")), under)
         upper = st.one_of(rand_upper, st.sampled_from(EDGE_UPPER), st.sampled_from(HOSTILE_UPPER))
 
         @st.composite
         def gen_case(draw):
             p = draw(rb.program(max_stmts=8, case_in=True))
             names = p["names"]
-            kinds = [k for k in names if names[k] and k != "writer"]
+            kinds = [k for k in names if names[k] and k not in ("writer", "pattern")]
+            if names.get("pattern") and draw(st.integers(0, 3)) == 0:
+                # variables bound by a case/in pattern go through identifier classification of their own
+                old = names["pattern"][draw(st.integers(0, len(names["pattern"]) - 1))]
+                # a name made of underscores only is the wildcard pattern, not a variable: not a consistent renaming of a bound name
+                new = draw(st.one_of(lower, under).filter(lambda n: n.strip("_") != ""))
+                return {"src": rb.render(p["tree"]), "old": old, "new": new, "kind": "local"}
             if names.get("writer") and draw(st.integers(0, 2)) == 0:
                 # hand-written attribute writers (def name=(v)) are name-shape sensitive: rename them often
                 old = names["writer"][draw(st.integers(0, len(names["writer"]) - 1))]
@@ -126,6 +134,9 @@ class Check(Prop):
                 return {"src": rb.render(p["tree"]), "old": "", "new": "x", "kind": "local"}
             kind = kinds[draw(st.integers(0, len(kinds) - 1))]
             old = names[kind][draw(st.integers(0, len(names[kind]) - 1))]
+            if old in (names.get("pattern") or []):
+                new = draw(lower.filter(lambda n: n.strip("_") != ""))
+                return {"src": rb.render(p["tree"]), "old": old, "new": new, "kind": kind}
             if kind == "const":
                 new = draw(st.from_regex(r"[A-Z][A-Z0-9_]{1,10}", fullmatch=True))
             else:
